@@ -19,7 +19,9 @@ RULE = ("A case is a ring description (C26 format: hosts with dc/rack/tokens, ke
         "on_down delivered, is_up False; added-unmarked: live in the child policy but is_up still None -- the window between Cluster.on_add and "
         "Host.set_up, permanent when the pool could not be created; upped-unmarked: same after on_up, is_up False), a child policy (RoundRobin, "
         "DCAwareRoundRobin with local_dc in/absent from the ring and used_hosts_per_remote_dc 0..2), the shuffle flag and a list of steps: "
-        "queries (SimpleStatement with routing key/keyspace, working keyspace, or no statement at all) interleaved with up/down events.  The real "
+        "queries (SimpleStatement with routing key/keyspace, working keyspace, or no statement at all) interleaved with up/down events and keyspace-level "
+        "schema refreshes (Metadata._update_keyspace with new replication options / _drop_keyspace, as an ALTER/CREATE/DROP KEYSPACE event delivers them; the replicas "
+        "of a key are those of the keyspace's current replication).  The real "
         "TokenAwarePolicy over the real Metadata is compared with R + rest where R are the reference replicas that are up and LOCAL "
         "and rest is the plan of a twin child policy (same events, same pinned randint/shuffle) minus R.  Part state-product enumerates all 4^h host states "
         "x children x shuffle x strategies for two fixed rings.  Non-trivial: a routed query with >= 2 replicas of which at least one is "
@@ -102,7 +104,25 @@ def interpret(case, ctx):
         child = case["child"]
         shuffle = bool(case.get("shuffle"))
         nontrivial = False
+        queried = set()         # keyspaces whose replica map the driver has been asked for (and may have cached)
+        altered = {}            # keyspace -> "altered-after-query" | "altered"
         for step in case["steps"]:
+            if "alter" in step:
+                # a keyspace-level schema refresh (ALTER / CREATE KEYSPACE seen by the control connection)
+                name = step["alter"]
+                with ctx.driver(["C22.metadata.update_keyspace"]):
+                    if step.get("options") is None:
+                        ring.drop_keyspace(name)
+                    else:
+                        ring.alter_keyspace(name, step["options"])
+                if step.get("options") is None:
+                    queried.discard(name)
+                    altered.pop(name, None)
+                    ctx.label("schema:drop-keyspace")
+                else:
+                    altered[name] = "altered-after-query" if name in queried else "altered-before-query"
+                    ctx.label("schema:" + altered[name])
+                continue
             if "ev" in step:
                 if step["host"] < len(hosts):
                     with ctx.driver(["C22.event", step["ev"]]):
@@ -118,6 +138,7 @@ def interpret(case, ctx):
             routed = q is not None and q.get("key") is not None and eff_ks is not None
             drv_replicas = None
             if routed:
+                queried.add(eff_ks)
                 with ctx.driver(["C22.metadata.get_replicas"]):
                     drv_replicas = list(ring.metadata.get_replicas(eff_ks, rk))
                 if drv_replicas is None:
@@ -148,7 +169,9 @@ def interpret(case, ctx):
                 raise HarnessError("reference self-check failed: %s" % e)
             di = [ring.index(h) for h in drv_replicas]
             md_differs = set(di) != set(refl) or len(set(di)) != len(di)
-            mdf = ["metadata-replicas-differ"] if md_differs else []
+            mdf = ["metadata-replicas-differ", altered.get(eff_ks, "keyspace-as-built")] if md_differs else []
+            if altered.get(eff_ks) == "altered-after-query":
+                ctx.label("q:routed-after-alter-of-queried-keyspace")
             simple = cls.endswith("SimpleStrategy")
 
             def ok_replica(i):
@@ -231,6 +254,7 @@ _FIXED = [
 _CHILDREN = [{"kind": "rr"}, {"kind": "dcaware", "local_dc": "dc0", "used": 0}, {"kind": "dcaware", "local_dc": "dc0", "used": 1},
              {"kind": "dcaware", "local_dc": "dc1", "used": 2}]
 _KEYS = [b"a", b"k1", b"zz9"]
+_ALTERED_NTS = [{"class": "NetworkTopologyStrategy", "dc0": "3"}, {"class": "NetworkTopologyStrategy", "dc0": "1", "dc1": "2"}]
 
 
 def product_chunks(tier):
@@ -248,6 +272,12 @@ def product_cases(chunk):
             for ks in ("s2", "n2", "s3"):
                 for k in _KEYS[:2] if ks != "s2" else _KEYS:
                     steps.append({"q": {"key": k.hex(), "ks": ks}, "wks": None})
+            # the replication of keyspaces that have been queried is altered, then they are queried again
+            steps.append({"alter": "s2", "options": {"class": "SimpleStrategy", "replication_factor": "1"}})
+            steps.append({"alter": "n2", "options": _ALTERED_NTS[chunk["ring"]]})
+            steps.append({"alter": "s3", "options": {"class": "NetworkTopologyStrategy", "dc0": "1"}})
+            for ks in ("s2", "n2", "s3"):
+                steps.append({"q": {"key": _KEYS[0].hex(), "ks": ks}, "wks": None})
             yield {"ring": ring, "child": child, "shuffle": shuffle, "shuffle_seed": len(steps) + h, "randint": 1, "steps": steps}
 
 
@@ -295,9 +325,15 @@ def s_case(max_dcs):
                 st.fixed_dictionaries({"q": st.fixed_dictionaries({"key": st.none(), "ks": ksname}), "wks": st.none()}),
                 st.fixed_dictionaries({"q": st.none(), "wks": st.one_of(st.none(), ksname)}))
             ev = st.fixed_dictionaries({"ev": st.sampled_from(STATES), "host": st.integers(0, h - 1)})
+            alter = st.fixed_dictionaries({"alter": st.sampled_from(sorted(kss) + ["nope"]),
+                                           "options": st.one_of(nts, simple, nts, simple, st.none())})
             routed = st.fixed_dictionaries({"q": st.fixed_dictionaries({"key": st.sampled_from(keys).map(bytes.hex),
                                                                          "ks": st.sampled_from(sorted(kss))}), "wks": st.none()})
-            steps = draw(st.lists(st.one_of(routed, routed, routed, qstep, ev), min_size=1, max_size=6))
+            steps = draw(st.lists(st.one_of(routed, routed, routed, qstep, ev, alter), min_size=1, max_size=6))
+            if draw(st.integers(0, 2)) == 0:
+                # by construction: query a keyspace, alter its replication, query it again with the same key
+                q0 = draw(routed)
+                steps = steps + [q0, {"alter": q0["q"]["ks"], "options": draw(st.one_of(nts, simple))}, q0]
             order = draw(st.permutations(list(range(h))))
             return {"ring": {"partitioner": "murmur3", "hosts": hosts, "keyspaces": kss}, "child": child,
                     "shuffle": draw(st.booleans()), "shuffle_seed": draw(st.integers(0, 7)), "randint": draw(st.integers(0, 7)),
